@@ -3,7 +3,7 @@
 from hypothesis import strategies as st
 
 from tv.core import Result
-from tv.cyc import Harness, step
+from tv.cyc import Harness, fold_second, step
 
 ID = "C29"
 ENGINE = "B"
@@ -14,7 +14,9 @@ RULE = (
     "followed by a drain with ready=1; sink: the driver is a protocol-conforming producer (an offered payload is held "
     "until transferred) and requests read/peek; wrapper: StreamModuleWrapper around an in-house registered stream "
     "buffer (depth 1..3, payload map x -> (x*mul+add) mod 2^wo with wo != wi allowed), write/read requests, followed "
-    "by a drain. non-trivial = source: a stall (valid and not ready) of >= 2 cycles during which a write was refused, "
+    "by a drain.  In one case of three a SECOND independent caller (its own transaction) of the exclusive method exists "
+    "(write of the source, read of the sink, either of the wrapper): at most one of the two is served per cycle and the "
+    "outcome is that of a single request. non-trivial = source: a stall (valid and not ready) of >= 2 cycles during which a write was refused, "
     "and a write accepted in a transfer cycle; sink: a peek accepted in a cycle without read followed later by a "
     "read, and a read refused while not valid; wrapper: a write refused by back-pressure and >= depth+2 items moved"
 )
@@ -60,20 +62,26 @@ def strategy(draw, tier="quick"):
     else:
         shape = draw(st.one_of(st.integers(1, 8), st.lists(st.integers(1, 6), min_size=2, max_size=2)))
         case["shape"] = shape
+    # in one case of three a second, independent caller of an exclusive method exists (its own transaction)
+    second = draw(st.sampled_from([None, None, {"source": "write", "sink": "read"}.get(kind) or draw(st.sampled_from(["write", "read"]))]))
+    case["second"] = second
     hist = []
     for s in range(nseg):
         n = per if s < nseg - 1 else max(1, total - per * (nseg - 1))
-        wa, wb, wc = (draw(st.integers(0, 8)) for _ in range(3))
+        wa, wb, wc, wd = (draw(st.integers(0, 8)) for _ in range(4))
         for _ in range(n):
             a = draw(st.integers(0, 7)) < wa
             b = draw(st.integers(0, 7)) < wb
             c = draw(st.integers(0, 7)) < wc
+            d = second is not None and draw(st.integers(0, 7)) < wd
             if kind == "source":
                 hist.append({"write": _value(draw, shape) if a else None, "ready": int(b)})
             elif kind == "sink":
                 hist.append({"offer": _value(draw, shape) if a else None, "read": b, "peek": c})
             else:
                 hist.append({"write": _value(draw, shape) if a else None, "read": b})
+            if d:
+                hist[-1]["second"] = _value(draw, shape) if second == "write" else True
     case["history"] = hist
     return case
 
@@ -131,12 +139,15 @@ def _run_source(case, res):
     from transactron.lib.stream import StreamSource
 
     shape = case["shape"]
-    h = Harness(lambda: StreamSource(_shape_obj(shape)))
+    sec = case.get("second")
+    h = Harness(lambda: StreamSource(_shape_obj(shape)), second_callers=(sec,) if sec else ())
+    if sec:
+        res.labels.append("two_callers_of_" + sec)
     hist = list(case["history"]) + [{"write": None, "ready": 1}] * 4
     flags = dict(stall2_refused=False, refill=False, stall=False)
 
     async def tb(ctx):
-        ios = h.ios(["write"])
+        ios = h.ios(["write"] + (["write_b"] if sec else []))
         o = h.dut.o
         written, transferred = [], []
         prev = None  # (valid, payload, ready) of the previous cycle
@@ -144,8 +155,14 @@ def _run_source(case, res):
         for t, rec in enumerate(hist):
             ctx.set(o.ready, rec["ready"])
             reqs = {"write": {"data": _val(shape, rec["write"])}} if rec["write"] is not None else {}
+            if sec and rec.get("second") is not None:
+                reqs["write_b"] = {"data": _val(shape, rec["second"])}
             results, (valid, payload) = await step(ctx, ios, reqs, [o.valid, o.payload])
             res.stats["cycles"] = res.stats.get("cycles", 0) + 1
+            if sec:
+                msg = fold_second("write", reqs, results)
+                if msg:
+                    return res.fail(f"cycle {t}: {msg}")
             acc = results["write"] is not None
             rdy = rec["ready"]
             if acc and "write" not in reqs:
@@ -198,11 +215,14 @@ def _run_sink(case, res):
     from transactron.lib.stream import StreamSink
 
     shape = case["shape"]
-    h = Harness(lambda: StreamSink(_shape_obj(shape)))
+    sec = case.get("second")
+    h = Harness(lambda: StreamSink(_shape_obj(shape)), second_callers=(sec,) if sec else ())
+    if sec:
+        res.labels.append("two_callers_of_" + sec)
     flags = dict(peek_only_then_read=False, read_refused_invalid=False, stall2=False, peek_and_read=False)
 
     async def tb(ctx):
-        ios = h.ios(["read", "peek"])
+        ios = h.ios(["read", "peek"] + (["read_b"] if sec else []))
         i = h.dut.i
         holding = None  # payload offered and not yet transferred
         peeked_pending = False
@@ -220,8 +240,14 @@ def _run_sink(case, res):
                 reqs["read"] = {}
             if rec["peek"]:
                 reqs["peek"] = {}
+            if sec and rec.get("second"):
+                reqs["read_b"] = {}
             results, (ready,) = await step(ctx, ios, reqs, [i.ready])
             res.stats["cycles"] = res.stats.get("cycles", 0) + 1
+            if sec:
+                msg = fold_second("read", reqs, results)
+                if msg:
+                    return res.fail(f"cycle {t}: {msg}")
             for n in ("read", "peek"):
                 acc = results[n] is not None
                 if acc and n not in reqs:
@@ -264,13 +290,16 @@ def _run_wrapper(case, res):
     from transactron.lib.stream import StreamModuleWrapper
 
     wi, wo, depth, mul, add = case["wi"], case["wo"], case["depth"], case["mul"], case["add"]
-    h = Harness(lambda: StreamModuleWrapper(_make_buffer(wi, wo, depth, mul, add)))
+    sec = case.get("second")
+    h = Harness(lambda: StreamModuleWrapper(_make_buffer(wi, wo, depth, mul, add)), second_callers=(sec,) if sec else ())
+    if sec:
+        res.labels.append("two_callers_of_" + sec)
     hist = list(case["history"]) + [{"write": None, "read": True}] * (depth + 4)
     flags = dict(backpressure=False, full=False)
     moved = [0]
 
     async def tb(ctx):
-        ios = h.ios(["write", "read"])
+        ios = h.ios(["write", "read"] + ([sec + "_b"] if sec else []))
         mod = h.dut.module
         src = None  # content of the StreamSource register (already mapped by the buffer's function on entry)
         buf = []
@@ -282,8 +311,14 @@ def _run_wrapper(case, res):
                 reqs["write"] = {"data": rec["write"]}
             if rec["read"]:
                 reqs["read"] = {}
+            if sec and rec.get("second") is not None:
+                reqs[sec + "_b"] = {"data": rec["second"]} if sec == "write" else {}
             results, (iv, ip, ir) = await step(ctx, ios, reqs, [mod.i.valid, mod.i.payload, mod.i.ready])
             res.stats["cycles"] = res.stats.get("cycles", 0) + 1
+            if sec:
+                msg = fold_second(sec, reqs, results)
+                if msg:
+                    return res.fail(f"cycle {t}: {msg}")
             w_acc = results["write"] is not None
             r_acc = results["read"] is not None
             for n, acc in (("write", w_acc), ("read", r_acc)):
@@ -322,7 +357,7 @@ def _run_wrapper(case, res):
                 buf.append(src)
                 src = None
             if w_acc:
-                src = (rec["write"] * mul + add) % (1 << wo)
+                src = (reqs["write"]["data"] * mul + add) % (1 << wo)
                 n_written += 1
         if n_read != n_written:
             return res.fail(f"after the drain {n_read} items were read but {n_written} written")
